@@ -26,6 +26,37 @@ def strings_with_content(ctx, toks):
     return toks
 UNITS['tagUnitsMatchRefsUnits_call'] = dict(file=CK, locator=r'bool\s+tagUnitsMatchRefsUnits::operator\s*\(\s*\)\s*\(', cls='tagUnitsMatchRefsUnits', cls_file=CH,
     classes=['DataArray', 'nstring', 'tagUnitsMatchRefsUnits'], member_types={'units': 'vec_nstr'}, pre_rules=[strings_with_content])
+def string_values(ctx, toks):
+    """X = "literal";  with X a std::string -> X = nstring_lit("literal");   CALL(...).value_or("literal") on an optional string -> opt_nstr_value_or(CALL(...), nstring_lit("literal"))"""
+    from cxx2c import Tok, P, match_open, tokenize, fire
+    out = []; i = 0
+    while i < len(toks):
+        t = toks[i]
+        if t.k == 'str' and out and out[-1].t == '=' and i + 1 < len(toks) and toks[i + 1].t == ';':
+            out.extend(tokenize(' nstring_lit(%s)' % t.t)); i += 1; fire(ctx, 'string-literal-assign'); continue
+        if t.t == '.' and out and out[-1].t == ')' and i + 4 < len(toks) and toks[i + 1].t == 'value_or' and toks[i + 2].t == '(' and toks[i + 3].k == 'str' and toks[i + 4].t == ')':
+            o = match_open(out, len(out) - 1)
+            call = out[o - 1:]; del out[o - 1:]
+            ws = call[0].ws; call[0].ws = ''
+            out.extend(tokenize('%sopt_nstr_value_or(' % ws)); out.extend(call); out.extend(tokenize(', nstring_lit(%s))' % toks[i + 3].t)); i += 5; fire(ctx, 'optional-value-or'); continue
+        out.append(t); i += 1
+    return out
+UNITS['getDimensionUnit'] = dict(post_rules=[string_values], file='src/util/dataAccess.cpp', locator=r'string\s+getDimensionUnit\s*\(', classes=['Dimension', 'SampledDimension', 'RangeDimension', 'DataFrameDimension', 'nstring'])
+def units_list(ctx, toks):
+    """std::vector<std::string> of this unit is the ghost list vec_nstr_g;  for (auto &dim : darray.dimensions()) -> hoisted vector + typed loop variable"""
+    from cxx2c import Tok, P, seq_at, match_close, tokenize, fire
+    out = []; i = 0
+    while i < len(toks):
+        if toks[i].t == 'for' and seq_at(toks, i + 1, ['(', 'auto', '&']) and toks[i + 5].t == ':':
+            e = match_close(toks, i + 1)
+            ctx.env['rng_'] = ('vec_Dimension', False)
+            out.extend(tokenize('%svec_Dimension rng_ =' % toks[i].ws)); out.extend(toks[i + 6:e]); out.extend(tokenize('; for (Dimension &%s : rng_)' % toks[i + 4].t))
+            i = e + 1; fire(ctx, 'range-for-over-call'); continue
+        out.append(toks[i]); i += 1
+    return out
+UNITS['getDimensionsUnits'] = dict(file='src/valid/helper.cpp', locator=r'std::vector<std::string>\s+getDimensionsUnits\s*\(', classes=['DataArray', 'Dimension', 'nstring'], pre_rules=[units_list], bounded_twin=True, ret_default='(vec_string){0}',
+    loops={0: '__CPROVER_assigns(_i_dim, gh_du_pushes, units.n, nix_exc)\n__CPROVER_loop_invariant(_i_dim <= rng_.n && gh_du_pushes == _i_dim && units.n == _i_dim && nix_exc == EXC_NONE)\n__CPROVER_decreases(rng_.n - _i_dim)'})
+DUX = 'size_t gh_du_pushes, gh_ndims; Dimension *gh_dims;\n'
 EXTRA = 'const Dimension *gh_dims_base;\n'
 def job(fn, **kw):
     d = dict(name=fn, bodies=['NDSize_size', 'NDSize_at', fn], enforce=[fn], replace=[], extra_c=EXTRA, loop_contracts=True, defines=['NIX_TMP_LITERAL'],
@@ -39,7 +70,13 @@ JOBS = [bjob('dimTicksMatchData_call'), bjob('dimLabelsMatchData_call'), bjob('d
         dict(name='tagUnitsMatchRefsUnits_call', bodies=['tagUnitsMatchRefsUnits_call'], enforce=['tagUnitsMatchRefsUnits_call'], replace=[], includes=['c19_units.h'],
              extra_c='bool gh_scal[NSTR_IDS][NSTR_IDS];\n', cbmc_flags=['--unwind', '5', '--unwinding-assertions'], expect_kinds=['postcondition', 'unwind'], timeout=900,
              bounded='at most 2 referenced arrays, 3 tag units, 3 dimensions per array, 4 distinct unit strings; loops unwound completely under that bound')]
-SPEC = dict(contracts=['nd.h', 'dv.h', 'c19_valid.h', 'c19_units.h'], stubs=['dataarray.h'], include_order=['nd.h', 'dataarray.h', 'dv.h', 'c19_valid.h'], units=UNITS, jobs=JOBS,
+JOBS += [dict(name='getDimensionUnit', bodies=['getDimensionUnit'], enforce=['getDimensionUnit'], replace=[], includes=['c19_dimunit.h'], extra_c=DUX, expect_kinds=['postcondition'], timeout=300),
+         dict(name='getDimensionsUnits', bodies=['getDimensionsUnits'], enforce=['getDimensionsUnits'], replace=['getDimensionUnit'], includes=['c19_dimunit.h'], extra_c=DUX, loop_contracts=True,
+              expect_kinds=['postcondition', 'loop_invariant_base', 'loop_invariant_step'], timeout=300),
+         dict(name='getDimensionsUnits[bounded]', bodies=['getDimensionsUnits'], enforce=['getDimensionsUnits'], replace=['getDimensionUnit'], includes=['c19_dimunit.h'], extra_c=DUX, loop_contracts=False,
+              defines=['NIX_NO_LOOP_CONTRACTS', 'C19_BOUNDED=3'], cbmc_flags=['--unwind', '5', '--unwinding-assertions'], expect_kinds=['postcondition', 'unwind'], timeout=300,
+              bounded='at most 3 descriptors, loop unwound completely (twin without loop contract)')]
+SPEC = dict(contracts=['nd.h', 'dv.h', 'c19_valid.h', 'c19_units.h', 'c19_dimunit.h'], stubs=['dataarray.h'], include_order=['nd.h', 'dataarray.h', 'dv.h', 'c19_valid.h'], units=UNITS, jobs=JOBS,
             trusted_base=['CBMC 6.11.0 (C front end, --dfcc, SAT back end)', 'vlib/cxx2c.py idiom map'] + ND_TRUST +
                          ['DataArray / Dimension handles abstracted to the state the predicates read (extent; descriptor kind, tick / label / row count)',
                           'Dimension::index() of the d-th descriptor is d+1 (descriptors numbered 1..n without gaps: property C13)',
